@@ -533,6 +533,25 @@ pub fn c05(ix: &Index) -> Vec<Viol> {
             }
         }
     }
+    // local spans recorded under a local parent with mixed parents go to the sampled ones
+    if !h.cancelable && !h.limit_hit {
+        for l in &h.locals {
+            let sc = &h.scopes[l.scope];
+            if let (ScopeKind::Parent { items, .. }, Some(_)) = (&sc.kind, sc.close_t) {
+                let ns = items.iter().filter(|i| i.sampled).count();
+                if ns > 0 && ns < items.len() && l.via != "eop" {
+                    let got = ix.by_name.get(l.name.as_str()).map(|r| r.len()).unwrap_or(0);
+                    if got != ns {
+                        out.push(v(
+                            "C05",
+                            "mixed-scope-local-copies",
+                            format!("local span {:?} recorded under a local parent with {} sampled and {} unsampled parents was delivered {} time(s)", l.name, ns, items.len() - ns, got),
+                        ));
+                    }
+                }
+            }
+        }
+    }
     // contexts extracted in unsampled traces
     for c in &h.ctxs {
         if let Some(e) = &c.exp {
@@ -1538,6 +1557,286 @@ pub fn c16(ix: &Index) -> Vec<Viol> {
     for e in &h.elapsed {
         if h.spans[e.span].noop && e.obs_ns.is_some() {
             out.push(v("C16", "elapsed-from-non-recording", "elapsed() returned Some for a non-recording span".to_string()));
+        }
+    }
+    out
+}
+
+// ---------------------------------------------------------------------------------------------
+// C03 / C04 / C08: cancelable mode, cancel, retained state (schedule-level)
+// ---------------------------------------------------------------------------------------------
+
+fn src_vt(h: &Hist, s: Src) -> Option<usize> {
+    match s {
+        Src::Span(i) => h.spans[i].finish_vt,
+        Src::Local(l) => Some(h.scopes[h.locals[l].scope].vt),
+        Src::Pushed(p, _) => Some(h.pushes[p].vt),
+    }
+}
+
+/// a collector cycle was in progress across both pushes [a_end .. b_begin] (a happens before b)
+fn cycle_spans(h: &Hist, a_end: T, b_begin: T) -> bool {
+    h.cycles.iter().any(|c| c.t0 < a_end && c.t1.map_or(true, |t1| t1 > b_begin))
+}
+
+/// The collector drains the per-thread queues one after another, so a command pushed before
+/// another one (on another thread) can be consumed one cycle later than it. Known finding:
+/// such an inconsistent cut can separate a unit's start / a member's submit / the commit.
+fn inconsistent_cut_possible(h: &Hist, root: usize, member: Option<(usize, (T, T))>) -> bool {
+    let r = &h.spans[root];
+    let Some(rf) = r.finish_t else { return false };
+    match member {
+        None => {
+            // commit consumed before start
+            r.finish_vt != Some(r.create_vt) && cycle_spans(h, r.create_t.1, rf.0)
+        }
+        Some((mvt, mfin)) => {
+            (mvt != r.create_vt && cycle_spans(h, r.create_t.1, mfin.0))
+                || (Some(mvt) != r.finish_vt && cycle_spans(h, mfin.1, rf.0))
+                || (r.finish_vt != Some(r.create_vt) && cycle_spans(h, r.create_t.1, rf.0))
+        }
+    }
+}
+
+/// the cancelling thread parked its drop command in the overflow list (ring full) and exited
+/// before any collector cycle made room: Sender::drop cannot push into a full ring
+fn cancel_lost_at_exit(h: &Hist, root: usize) -> bool {
+    let r = &h.spans[root];
+    let (Some(c), Some(cv)) = (r.cancel_t.first(), r.cancel_vt.first()) else { return false };
+    let parked = h.hooks.iter().any(|e| e.vt == Some(*cv) && e.t > c.0 && e.t < c.1 && matches!(e.kind, HookKind::BeforePush { free: 0, .. }));
+    let Some(ex) = h.vts[*cv].exit_t else { return false };
+    // no complete cycle between the cancel and the exit
+    let drained = h.cycles.iter().any(|cy| cy.t0 > c.1 && cy.t1.map_or(false, |t1| t1 < ex.0));
+    parked && !drained
+}
+
+/// a full queue was involved on the vthread (C09 territory)
+fn fill_involved(h: &Hist) -> bool {
+    h.labels.contains_key("fill")
+}
+
+pub fn c03(ix: &Index, for_prop: &'static str) -> Vec<Viol> {
+    let mut out = Vec::new();
+    let h = ix.h;
+    if !h.cancelable || names_ambiguous(h) {
+        return out;
+    }
+    for (u, r) in h.spans.iter().enumerate() {
+        if !r.is_root || r.noop || !r.items[0].sampled || r.how != "root" {
+            continue;
+        }
+        let trace = r.items[0].trace;
+        if ix.root_cancelled(u) {
+            continue;
+        }
+        let Some(rf) = r.finish_t else { continue };
+        // batches holding records of this trace
+        let mut bset: Vec<usize> = Vec::new();
+        for (bi, b) in h.batches.iter().enumerate() {
+            if b.records.iter().any(|x| x.trace_id.0 == trace) {
+                bset.push(bi);
+            }
+        }
+        let root_rec = ix.by_name.get(r.name.as_str());
+        let overflow_exit = fill_involved(h);
+        if root_rec.is_none() {
+            if overflow_exit {
+                continue; // C09 decides what may be missing under overload
+            }
+            let sig = if inconsistent_cut_possible(h, u, None) {
+                "trace-lost:inconsistent-cut"
+            } else {
+                "root-missing"
+            };
+            out.push(v(for_prop, sig, format!("trace {:#x}: root {:?} finished at t={:?} without cancel but was never delivered", trace, r.name, rf)));
+            continue;
+        }
+        if bset.len() > 1 {
+            out.push(v(
+                for_prop,
+                "trace-split-across-reports",
+                format!("trace {:#x} was delivered in {} different report() calls {:?}", trace, bset.len(), bset),
+            ));
+        }
+        let root_batch = root_rec.unwrap()[0].0;
+        for bi in &bset {
+            if h.batches[*bi].t < rf.0 {
+                out.push(v(
+                    for_prop,
+                    "delivered-before-root-finished",
+                    format!("trace {:#x}: records reported at t={} before the root finished (t={})", trace, h.batches[*bi].t, rf.0),
+                ));
+            }
+            if *bi != root_batch {
+                let sig = if *bi > root_batch { "delivered-after-root-batch" } else { "delivered-before-root-batch" };
+                out.push(v(for_prop, sig, format!("trace {:#x}: report#{} holds records of the trace but not its root (root in report#{})", trace, bi, root_batch)));
+            }
+        }
+        // must set
+        for e in &ix.exps {
+            if e.unit != u || e.src == Src::Span(u) || e.fin.1 >= rf.0 {
+                continue;
+            }
+            let got = ix
+                .by_name
+                .get(e.name.as_str())
+                .map(|rs| rs.iter().any(|(bi, x)| x.trace_id.0 == e.trace && *bi == root_batch))
+                .unwrap_or(false);
+            if !got {
+                if overflow_exit {
+                    continue;
+                }
+                let mvt = src_vt(h, e.src).unwrap_or(usize::MAX);
+                let sig = if inconsistent_cut_possible(h, u, Some((mvt, e.fin))) {
+                    "must-set-missing:inconsistent-cut"
+                } else {
+                    "must-set-missing"
+                };
+                out.push(v(
+                    for_prop,
+                    sig,
+                    format!(
+                        "trace {:#x}: {:?} finished at t={:?} on vt{} before the root finished (t={:?} on vt{:?}) but is not in the root's report",
+                        trace, e.name, e.fin, mvt, rf, r.finish_vt
+                    ),
+                ));
+            }
+        }
+    }
+    out
+}
+
+pub fn c04(ix: &Index) -> Vec<Viol> {
+    let mut out = Vec::new();
+    let h = ix.h;
+    if names_ambiguous(h) {
+        return out;
+    }
+    if h.cancelable {
+        // (1) a cancelled trace is never delivered
+        for (u, r) in h.spans.iter().enumerate() {
+            if !r.is_root || r.noop || !r.items[0].sampled || !ix.root_cancelled(u) {
+                continue;
+            }
+            let trace = r.items[0].trace;
+            let c0 = r.cancel_t[0].0;
+            for (bi, b) in h.batches.iter().enumerate() {
+                for x in b.records.iter().filter(|x| x.trace_id.0 == trace) {
+                    let cut = r.cancel_vt.first().map_or(false, |cv| *cv != r.create_vt) && cycle_spans(h, r.create_t.1, c0);
+                    let full_at = |vt: Option<usize>, t: (T, T)| {
+                        h.hooks.iter().any(|e| e.vt == vt && e.t > t.0 && e.t < t.1 && matches!(e.kind, HookKind::BeforePush { free: 0, .. }))
+                    };
+                    let full = full_at(r.cancel_vt.first().copied(), r.cancel_t[0]) || r.finish_t.map_or(false, |f| full_at(r.finish_vt, f));
+                    let sig = if cancel_lost_at_exit(h, u) {
+                        "cancelled-trace-delivered:exit-with-full-queue"
+                    } else if full {
+                        "cancelled-trace-delivered:queue-full"
+                    } else if cut {
+                        "cancelled-trace-delivered:inconsistent-cut"
+                    } else {
+                        "cancelled-trace-delivered"
+                    };
+                    out.push(v(
+                        "C04",
+                        sig,
+                        format!("trace {:#x} was cancelled at t={} but record {:?} was delivered in report#{} (t={})", trace, c0, x.name, bi, b.t),
+                    ));
+                }
+            }
+        }
+        // (2) every other trace is unaffected
+        out.extend(c03(ix, "C04"));
+    } else {
+        // (3) cancel() without cancelable(true) changes nothing: exactly-once delivery and
+        // attachments as if the call were absent
+        out.extend(c01_api(ix).into_iter().map(|mut x| {
+            x.prop = "C04";
+            x.sig = format!("default-config:{}", x.sig);
+            x
+        }));
+        out.extend(c06(ix).into_iter().filter(|x| x.sig.starts_with("attachment-lost") || x.sig == "attachment-duplicated").map(|mut x| {
+            x.prop = "C04";
+            x.sig = format!("default-config:{}", x.sig);
+            x
+        }));
+    }
+    // cancel on non-root / no-op spans: the model ignores them, so C03/C01 above already
+    // demand unchanged delivery
+    out
+}
+
+pub fn c08(ix: &Index) -> Vec<Viol> {
+    let mut out = Vec::new();
+    let h = ix.h;
+    let leak_shape = h.spans.iter().enumerate().any(|(u, r)| {
+        r.is_root
+            && !r.noop
+            && r.items[0].sampled
+            && (inconsistent_cut_possible(h, u, None)
+                || (h.cancelable && r.cancel_t.iter().zip(r.cancel_vt.iter()).any(|(c, cv)| *cv != r.create_vt && cycle_spans(h, r.create_t.1, c.0))))
+    });
+    let overflow = fill_involved(h);
+    for s in &h.stats {
+        if s.final_ {
+            if s.s.active_collectors != 0 || s.s.buffered_span_sets != 0 || s.s.danglings != 0 {
+                let sig = if overflow {
+                    "retained-after-quiescence:queue-full"
+                } else if leak_shape {
+                    "retained-after-quiescence:start-after-commit"
+                } else {
+                    "retained-after-quiescence"
+                };
+                out.push(v(
+                    "C08",
+                    sig,
+                    format!("after every root finished, every thread exited and one more cycle ran the collector still holds {:?}", s.s),
+                ));
+            }
+            if s.s.registered_receivers != 0 {
+                out.push(v(
+                    "C08",
+                    "receivers-after-quiescence",
+                    format!("{} receivers are still registered after all threads exited and their queues were drained", s.s.registered_receivers),
+                ));
+            }
+        } else {
+            // bound at idle points
+            let t = s.t;
+            let done_before = |end: T| h.cycles.iter().any(|c| c.t0 > end && c.t1.map_or(false, |t1| t1 <= t));
+            let live_units = h
+                .spans
+                .iter()
+                .filter(|r| r.is_root && !r.noop && r.items[0].sampled && r.create_t.0 < t)
+                .filter(|r| {
+                    let fin = r.finish_t.map(|f| f.1);
+                    let canc = if h.cancelable { r.cancel_t.first().map(|c| c.1) } else { None };
+                    let end = match (fin, canc) {
+                        (Some(a), Some(b)) => Some(a.min(b)),
+                        (a, b) => a.or(b),
+                    };
+                    !end.map_or(false, done_before)
+                })
+                .count();
+            if s.s.active_collectors > live_units && !overflow {
+                out.push(v(
+                    "C08",
+                    if leak_shape { "active-collectors-exceed-live-traces:start-after-commit" } else { "active-collectors-exceed-live-traces" },
+                    format!("t={}: {} active collectors but only {} traces are in flight", t, s.s.active_collectors, live_units),
+                ));
+            }
+            let live_vts = h
+                .vts
+                .iter()
+                .filter(|vt| vt.born_t.map_or(false, |b| b < t))
+                .filter(|vt| !vt.exit_t.map_or(false, |e| done_before(e.1)))
+                .count();
+            if s.s.registered_receivers > live_vts {
+                out.push(v(
+                    "C08",
+                    "receivers-exceed-live-threads",
+                    format!("t={}: {} receivers registered but only {} threads are live or undrained", t, s.s.registered_receivers, live_vts),
+                ));
+            }
         }
     }
     out
